@@ -843,6 +843,16 @@ def _get_position(node: ast.AST) -> _Position:
     return _Position(lineno, col_offset, end_lineno, end_col_offset)
 
 
+def _get_charno(source: str, line_start_charnos: Sequence[int], lineno: int, col_offset: int) -> int:
+    """Character number of an ast (lineno, col_offset) position. col_offset counts utf-8 bytes."""
+    line_start = line_start_charnos[lineno - 1]
+    if source.isascii():
+        return line_start + col_offset
+
+    line_prefix = source[line_start : line_start + col_offset]
+    return line_start + len(line_prefix.encode("utf-8")[:col_offset].decode("utf-8", errors="ignore"))
+
+
 def get_charnos(node: ast.AST, source: str, keep_first_indent: bool = False) -> Range:
     """Get start and end character numbers in source code from ast node.
 
@@ -862,11 +872,15 @@ def get_charnos(node: ast.AST, source: str, keep_first_indent: bool = False) -> 
     start_position = _get_position(start)
     node_position = _get_position(node)
 
-    start_charno = line_start_charnos[start_position.lineno - 1] + start_position.col_offset
+    start_charno = _get_charno(
+        source, line_start_charnos, start_position.lineno, start_position.col_offset
+    )
     if getattr(node, "end_lineno", None) is None:
         return Range(start_charno, start_charno)
 
-    end_charno = line_start_charnos[node_position.end_lineno - 1] + node_position.end_col_offset
+    end_charno = _get_charno(
+        source, line_start_charnos, node_position.end_lineno, node_position.end_col_offset
+    )
 
     code = source[start_charno:end_charno]
     if code and code[0] == " ":
